@@ -463,6 +463,7 @@ class Rendered(object):
         self.unsafe_depth = 0     # > 0 while rendering the arguments up to a verbatim argument
         self.tspans = []          # (start, end, in_math, delimiter) of every plain-text piece written
         self.mspans = []          # (start, end, open, close) of every formula written
+        self.vspans = []          # (text start, text end, open, close) of every verbatim argument written
 
     def emit(self, s, safe=True, blank=False):
         if not s:
@@ -507,6 +508,7 @@ def render(doc, vocab):
         r.bounds.append(r.n)
     LAST_RENDER['tspans'] = r.tspans
     LAST_RENDER['mspans'] = r.mspans
+    LAST_RENDER['vspans'] = r.vspans
     return r.source(), sorted(set(r.bounds))
 
 
@@ -736,6 +738,7 @@ def _render_args(d, args, r, vocab, math, mdelim=None):
             if r.after_word and not pre and o.isalpha():
                 raise Redraw('letter delimiter after control word')
             r.emit(o, safe=False)
+            r.vspans.append((r.n, r.n + len(txt), o, c))
             s = txt + c
             r.parts.append(s)
             r.n += len(s)
